@@ -175,9 +175,14 @@ theorem solveInner_cap_monotone_err (es : List (Entry α)) (g : List (Nat × α)
           exact hsvd _ _ he
         · simp at h
 
-/-- C14.4 — single priority level: the public entry point inherits cap-monotonicity.  (With
-several levels the statement needs the hypothesis that no level runs out of iterations under the
-smaller cap; see `solve_cap_monotone_partial`.) -/
+/-- C14.4, conditional form for any number of levels: the public entry point inherits
+cap-monotonicity under the hypothesis `hlev` that NO level call (for any priority value and any
+oracle index — stronger than "no attempted level") runs out of iterations under the smaller cap.
+The unconditional single-level statement is `solve_cap_monotone_single_level`
+(`Ezpz/Proofs/Caps.lean`); the error direction at the entry point is `solve_cap_monotone_err` (same
+file); without `hlev` the multi-level statement is false of model and code (known finding F11):
+machine-checked witness `cap_not_monotone_multi_level` (`Ezpz/Real/ToleranceEntry.lean`) and, run at
+`Float`, `cap_not_monotone_multi_level_float` (`Ezpz/Proofs/Caps.lean`). -/
 theorem solve_cap_monotone_partial (reqs : List (Constraint α × Nat)) (g : List (Nat × α))
     (cfg : Config α) (solve : LinSolve α) (svd : Option (Svd α)) (c c' : Nat) (hc : c ≤ c')
     (hlev : ∀ p i f, levelRun (enumerate reqs) g (withCap cfg c) solve svd i p = .error f →
